@@ -773,7 +773,14 @@ namespace pl
     inline ob::PlannerPtr makePlanner(const PInfo &pi, World &w, Rng &rng)
     {
         ob::PlannerPtr p = pi.make(w.si);
-        if (auto *q = dynamic_cast<og::CForest *>(p.get())) q->setNumThreads(2 + rng.ui(3));
+        if (auto *q = dynamic_cast<og::CForest *>(p.get()))
+        {
+            q->setNumThreads(2 + rng.ui(3));
+            // with the default focused search the RRT* workers sample the informed set directly once a solution exists and never
+            // draw from the sampler CForest shares path states through; without it they consume the shared states (the
+            // pending-list hand-over between workers is only exercised then)
+            if (rng.coin()) q->setFocusSearch(false);
+        }
         if (auto *q = dynamic_cast<og::pRRT *>(p.get())) q->setThreadCount(2 + rng.ui(3));
         if (auto *q = dynamic_cast<og::pSBL *>(p.get())) q->setThreadCount(2 + rng.ui(3));
         if (auto *q = dynamic_cast<og::AnytimePathShortening *>(p.get())) q->setDefaultNumPlanners(2 + rng.ui(3));
@@ -886,6 +893,10 @@ namespace pl
         }
         // optional re-mapping of a clause (used by C03 to fold the symptoms of one root cause into one key)
         std::function<std::string(const std::string &)> remap;
+        // the goal is fed by its own thread while (and shortly after) the planner runs (GoalLazySamples): the set the planner
+        // measured its approximate difference against can only have grown by the time the oracle looks, so the reported value is
+        // bounded from below only (difference >= distance to the goal as it is now)
+        bool goalSetGrows = false;
         void viol(const std::string &clause, const J &d) const
         {
             std::string cl = pre + clause;
@@ -1000,6 +1011,7 @@ namespace pl
                     // the difference to the closest goal they hold so far, which may be any of them)
                     if (std::isfinite(dv)) upper = std::max(upper, dv);
                 }
+                if (c.goalSetGrows) upper = std::numeric_limits<double>::infinity();
                 if (!(sol.difference_ <= upper + tol && sol.difference_ >= want - gr->getThreshold() - tol))
                     c.viol("approx-difference", c.detail("reported goal difference disagrees with the path's last state").num("reported", sol.difference_).num("actual", want));
             }
